@@ -425,7 +425,7 @@ class FunTerm:
                 return (OPQ("partial return"),)
             if r1 == r2:
                 return (r1,)
-            return (tm.atom_poly(("ifexp", cond, r1, r2)),)
+            return (tm.mk_ifexp(cond, r1, r2),)
         if b_ret or e_ret:
             self.opaque_all("return inside loop")
             return None
@@ -454,7 +454,7 @@ class FunTerm:
             elif v1 == v2:
                 merged[nm] = v1
             else:
-                merged[nm] = tm.atom_poly(("ifexp", cond, v1, v2))
+                merged[nm] = tm.mk_ifexp(cond, v1, v2)
         self.env = merged
         if b_cont and e_cont:
             self._consumed_rest = True
